@@ -457,6 +457,33 @@ theorem sha_byte_tampered_v21 (h : CryptoLaws c) (cfg : Cfg) (wf : Spec.WF21 cfg
   have e : (Spec.expected21 cfg).signedLen = 208 + cfg.certBlock.length + shaLen21 cfg := rfl
   exact romV21_sha_byte_tampered h cfg wf i v h1 (by omega) hv
 
+/-- SB 2.0: one changed byte in the header-MAC field (bytes 96..127): always refused (the ROM recomputes HMAC(mac key, header)) -/
+theorem header_mac_byte_tampered_v20 (h : CryptoLaws c) (cfg : Cfg) (signed : Bool) (wf : Spec.WF20 cfg signed) (i : Nat) (v : UInt8)
+    (h1 : 96 ≤ i) (h2 : i < 128) (hv : some v ≠ (buildV20 c cfg signed)[i]?) :
+    ∃ e, Rom.romV20 c cfg.kek ((buildV20 c cfg signed).set i v) = .error e :=
+  romV20_hmac_byte_tampered h cfg signed wf i v h1 h2 hv
+
+/-- SB 2.0: one changed byte in the 96-byte header is refused, or two different headers with the same HMAC-SHA256 under the image's
+    MAC key are exhibited.  Hypothesis `hkb`: the changed header, if the ROM can read it at all, still locates the key blob at block 8
+    with 5 blocks (true for every byte outside the two 16-bit words at offsets 46..49).  Without it the statement cannot be a reduction
+    to `Break`: a redirected key-blob pointer makes the ROM unwrap other bytes of the file, and "some other byte string unwraps under
+    the KEK" is not one of `Break`'s cases (for those four bytes the signature covers the header: `signed_range_tamper_v20`). -/
+theorem header_byte_tampered_v20 (h : CryptoLaws c) (cfg : Cfg) (signed : Bool) (wf : Spec.WF20 cfg signed) (i : Nat) (v : UInt8)
+    (h2 : i < 96) (hv : some v ≠ (buildV20 c cfg signed)[i]?)
+    (hkb : ∀ h', Rom.readImageHdr ((buildV20 c cfg signed).set i v) = .ok h' → h'.keyBlobBlock = 8 ∧ h'.keyBlobBlockCount = 5) :
+    (∃ e, Rom.romV20 c cfg.kek ((buildV20 c cfg signed).set i v) = .error e) ∨ Break c :=
+  romV20_header_byte_tampered h cfg signed wf i v h2 hv hkb
+
+/-- ANY byte string that starts with a 96-byte header, a 32-byte field `M` and this image's wrapped keys, and whose header points at
+    them, is refused by the SB 2.0 reader unless `M = HMAC(mac key, header)` — nothing about the rest of the file is assumed -/
+theorem v20_header_mac_is_checked (h : CryptoLaws c) (kek dek mac H M T : Bytes) (wdek : dek.length = 32) (wmac : mac.length = 32)
+    (lH : H.length = 96) (lM : M.length = 32) (lT : 8 ≤ T.length)
+    (hkb : ∀ h', Rom.readImageHdr (H ++ M ++ (Crypto.kwWrap c kek (dek ++ mac) ++ T)) = .ok h' →
+      h'.keyBlobBlock = 8 ∧ h'.keyBlobBlockCount = 5)
+    (hne : M ≠ Crypto.hmac c .sha256 mac H) :
+    ∃ e, Rom.romV20 c kek (H ++ M ++ (Crypto.kwWrap c kek (dek ++ mac) ++ T)) = .error e :=
+  romV20_header_mac_mismatch h kek dek mac H M T wdek wmac lH lM lT hkb hne
+
 /-- the same for exactly the compiled primitives the driver runs -/
 theorem exec_image_section_byte_tampered_v21 (cfg : Cfg) (wf : Spec.WF21 cfg) (i : Nat) (v : UInt8)
     (hi1 : (Spec.expected21 cfg).firstBootTagBlock * 16 ≤ i) (hi2 : i < (buildV21 Crypto.execOps cfg).length)
@@ -501,6 +528,12 @@ example : Spec.WF21 demoCfg := by decide +kernel
 example : (Spec.expected21 demoCfg).firstBootTagBlock * 16 = 656 ∧ 656 < Spec.fileLen21 demoCfg := by decide +kernel
 example : demoCfg.flags / 0x8000 % 2 = 1 ∧ (Spec.expected21 demoCfg).offsetToCert + demoCfg.certBlock.length = 368 ∧
     (Spec.expected21 demoCfg).signedLen = 400 := by decide +kernel
+/-- `hkb` of `header_byte_tampered_v20` is satisfiable: it holds for every changed nonce byte of every well-formed image -/
+example (cfg : Cfg) (signed : Bool) (wf : Spec.WF20 cfg signed) (i : Nat) (v : UInt8) (hi : i < 16) :
+    ∀ h', Rom.readImageHdr ((buildV20 c cfg signed).set i v) = .ok h' → h'.keyBlobBlock = 8 ∧ h'.keyBlobBlockCount = 5 :=
+  hkb_of_nonce_byte cfg signed wf i v hi
+/-- hypotheses of `v20_header_mac_is_checked` (lengths) for a concrete instance -/
+example : (List.replicate 32 (2 : UInt8)).length = 32 ∧ (List.replicate 96 (0 : UInt8)).length = 96 ∧ 8 ≤ (List.replicate 8 (0 : UInt8)).length := by decide
 example : Parse.kekLenOk (List.replicate 17 1) = false ∧ Parse.kekLenOk [] = false := by decide
 example : (Spec.expected20 demoCfg true).firstBootTagBlock * 16 = 448 ∧ 448 < (Spec.expected20 demoCfg true).imageBlocks * 16 ∧
     (Spec.expected20 demoCfg false).firstBootTagBlock * 16 = 208 ∧ 208 < (Spec.expected20 demoCfg false).imageBlocks * 16 := by decide +kernel
